@@ -11,6 +11,7 @@ mod exec;
 mod ledger;
 mod pair;
 mod replay;
+mod sweep;
 
 use std::cell::RefCell;
 use std::io::Write;
@@ -74,6 +75,29 @@ fn main() {
             }
             let out = arg(&args, "--out").expect("--out");
             std::fs::write(out, serde_json::to_string_pretty(&rep.to_json()).unwrap()).expect("write report");
+        }
+        "inject" | "adversarial" => {
+            let table = replay::Table::load(arg(&args, "--table").expect("--table"));
+            let set_mode = arg(&args, "--mode").unwrap_or("map") == "set";
+            if let Some(p) = arg(&args, "--progress") {
+                let f = std::fs::File::create(p).expect("progress file");
+                PROGRESS.with(|x| *x.borrow_mut() = Some(f));
+            }
+            let env = replay::measure_all(set_mode, &table.caps);
+            let mut rep = replay::Report::default();
+            let stride: usize = arg(&args, "--stride").map(|s| s.parse().unwrap()).unwrap_or(1);
+            let offset: usize = arg(&args, "--offset").map(|s| s.parse().unwrap()).unwrap_or(0);
+            let st = if cmd == "inject" {
+                sweep::run_inject(&table, &env, &mut rep, stride, offset)
+            } else {
+                let leaves: usize = arg(&args, "--max-leaves").map(|s| s.parse().unwrap()).unwrap_or(512);
+                sweep::run_adversarial(&table, &env, &mut rep, stride, offset, leaves)
+            };
+            let mut j = rep.to_json();
+            j["sweep"] = serde_json::json!({"cases": st.cases, "runs": st.runs, "max_callbacks": st.max_callbacks,
+                "truncated": st.truncated, "callback_kinds": st.cb_kinds, "failing_sites": st.failing_sites});
+            let out = arg(&args, "--out").expect("--out");
+            std::fs::write(out, serde_json::to_string_pretty(&j).unwrap()).expect("write report");
         }
         "pairs" => {
             let set_mode = arg(&args, "--mode").unwrap_or("set") == "set";
